@@ -6,26 +6,9 @@ and the iterate after one sweep (model sweep executed in exact rationals and in 
 namespace SmCodeDrv
 open Drv Stencil SmootherCode OpsDrv
 
-def opF0 : Op Float := ⟨0, 0, false, 0, fun _ => 0, fun _ => 0, fun _ _ => 0, fun _ _ => 0, fun _ _ => 0, fun _ _ => 0, fun _ => 0⟩
-
-/-- the level's operator data in IEEE double, computed as `LevelCache` computes it (`compute_jacobian_elements`) -/
-def parseLevelF (toks : List String) : Op Float :=
-  let nr := toNat! ((kv toks "nr").getD ""); let nt := toNat! ((kv toks "nt").getD "")
-  let radiiF := parseFloatsA ((kv toks "radii").getD ""); let anglesF := parseFloatsA ((kv toks "angles").getD "")
-  let h : Array Float := (Array.range (nr - 1)).map fun i => radiiF[i+1]! - radiiF[i]!
-  let k : Array Float := (Array.range nt).map fun j => anglesF[j+1]! - anglesF[j]!
-  let J := parseFloatsA ((kv toks "J").getD "")
-  let alpha := parseFloatsA ((kv toks "alpha").getD ""); let beta := parseFloatsA ((kv toks "beta").getD "")
-  let el : Array (Float × Float × Float × Float) := (Array.range (nr * nt)).map fun p =>
-    jacobianElements Float.abs (J.getD (4*p) 0) (J.getD (4*p+1) 0) (J.getD (4*p+2) 0) (J.getD (4*p+3) 0) (alpha.getD (p / nt) 0)
-  let fF (a : Array Float) : Field Float := fun i j => a.getD (i * nt + j) 0
-  ⟨nr, nt, (kv toks "bc") == some "1", radiiF.getD 0 0, fun i => h.getD i 0, fun j => k.getD j 0,
-    fF (el.map (·.1)), fF (el.map (·.2.1)), fF (el.map (·.2.2.1)), fF (el.map fun e => Float.abs e.2.2.2), fun i => beta.getD i 0⟩
-
 structure St where
   stats : Stats := {}
   lvl : Lvl := {}
-  opF : Op Float := opF0
   oracleFails : Nat := 0
   runs : Nat := 0
   entries : Nat := 0          -- stored matrix entries compared
@@ -63,9 +46,9 @@ def step (st : St) (line : String) : IO St := do
     let l := parseLevel rest
     IO.println s!"SIG smcode nr={l.nr} nt={l.nt} nc={l.nc} bc={l.bc} geo={l.geo} coef={l.coef}"
     let sample := if st.sample.length < 3 then st.sample ++ [s!"LV nr={l.nr} nt={l.nt} nc={l.nc} bc={l.bc} geo={l.geo} coef={l.coef}"] else st.sample
-    return { st with lvl := l, opF := parseLevelF rest, stats := { st.stats with cases := st.stats.cases + 1 }, sample := sample }
+    return { st with lvl := l, stats := { st.stats with cases := st.stats.cases + 1 }, sample := sample }
   | "SC" :: rest =>
-    let l := st.lvl; let o := l.op; let oa := l.opAbs; let oF := st.opF
+    let l := st.lvl; let o := l.op; let oa := l.opAbs; let oF := l.opF
     let nt := l.nt; let nr := l.nr; let nc := l.nc
     let strat := (kv rest "strat").getD ""; let threads := (kv rest "threads").getD ""
     let tag := s!"smoother {strat} threads={threads} nr={nr} nt={nt} nc={nc} bc={l.bc} geo={l.geo} coef={l.coef}"
